@@ -141,3 +141,5 @@ func CheckExact(diags []Diag, exp []Expect, what string) {
 		nd.Assert(ok, what+": no diagnostic outside the oracle's sites")
 	}
 }
+
+func tokenPos(i int) token.Pos { return token.Pos(i) }
